@@ -143,9 +143,19 @@ func malformedLine(k string) string {
 // cases (tags), coe=1 = continueonerror, mas = maxammosize.
 func providerSection(file string, kv map[string]string) map[string]any {
 	a := map[string]any{"type": "grpc/json", "file": file, "passes": 1}
+	if kv["src"] == "1" {
+		// the file named the other way the provider accepts: source: {type: file, path: …}
+		delete(a, "file")
+		a["source"] = map[string]any{"type": "file", "path": file}
+	}
 	if v, ok := kv["pas"]; ok {
-		n, _ := strconv.Atoi(v)
-		a["passes"] = n
+		if v == "d" {
+			// passes not written at all: the provider's default (unlimited; a limit must end the run)
+			delete(a, "passes")
+		} else {
+			n, _ := strconv.Atoi(v)
+			a["passes"] = n
+		}
 	}
 	if v, _ := strconv.Atoi(kv["lim"]); v > 0 {
 		a["limit"] = v
@@ -175,28 +185,64 @@ func providerSection(file string, kv map[string]string) map[string]any {
 type env struct {
 	target, refl *c20lib.Server
 	rmd          bool
+	tf           string
+}
+
+// targetText: the gun's target option. tf selects the way the same endpoint is written: (default) 127.0.0.1:<port>;
+// 1 localhost:<port>; 2 dns:///127.0.0.1:<port>; 3 passthrough:///127.0.0.1:<port>; 6 [::1]:<port> (the servers listen
+// on the IPv6 loopback); b 127.0.0.1 and c [::1] WITHOUT a port (only the reflection endpoint can then be reached,
+// through reflect_port: mode=table). What replacePort makes of each form is part of the model.
+func (e *env) targetText() string {
+	port := strconv.Itoa(portOf(e.target.Addr))
+	switch e.tf {
+	case "1":
+		return "localhost:" + port
+	case "2":
+		return "dns:///127.0.0.1:" + port
+	case "3":
+		return "passthrough:///127.0.0.1:" + port
+	case "6":
+		return "[::1]:" + port
+	case "b":
+		return "127.0.0.1"
+	case "c":
+		return "[::1]"
+	}
+	return e.target.Addr
+}
+
+func portOf(addr string) int {
+	i := strings.LastIndex(addr, ":")
+	p, _ := strconv.Atoi(addr[i+1:])
+	return p
 }
 
 var reflectMD = map[string]string{"x-refl": "secret-7", "x-refl-b": "two words"}
 
 func startEnv(kv map[string]string) (*env, error) {
-	e := &env{rmd: kv["rmd"] == "1"}
+	e := &env{rmd: kv["rmd"] == "1", tf: kv["tf"]}
 	var need map[string]string
 	if e.rmd {
 		need = reflectMD
 	}
+	host := ""
+	if e.tf == "6" || e.tf == "c" {
+		host = "[::1]"
+	}
+	// ghost=1: whoever serves the reflection API also lists a service nobody can resolve (it sorts first)
+	ghost := kv["ghost"] == "1"
 	var err error
 	if kv["rp"] == "1" {
-		if e.target, err = c20lib.StartServerWith(c20lib.ServerOpts{NoReflection: true}); err != nil {
+		if e.target, err = c20lib.StartServerWith(c20lib.ServerOpts{NoReflection: true, Host: host}); err != nil {
 			return nil, err
 		}
-		if e.refl, err = c20lib.StartServerWith(c20lib.ServerOpts{ReflectMD: need}); err != nil {
+		if e.refl, err = c20lib.StartServerWith(c20lib.ServerOpts{ReflectMD: need, Ghost: ghost, Host: host}); err != nil {
 			e.target.Stop()
 			return nil, err
 		}
 		return e, nil
 	}
-	e.target, err = c20lib.StartServerWith(c20lib.ServerOpts{ReflectMD: need})
+	e.target, err = c20lib.StartServerWith(c20lib.ServerOpts{ReflectMD: need, Ghost: ghost, Host: host})
 	return e, err
 }
 
@@ -216,7 +262,11 @@ func (e *env) stray() string {
 }
 
 func gunSection(kind string, e *env, kv map[string]string) map[string]any {
-	g := map[string]any{"type": kind, "target": e.target.Addr}
+	g := map[string]any{"type": kind, "target": e.targetText()}
+	// dto=<ms>: the DIAL timeout (dial_options.timeout) is configured: it must not leak into the per-call timeout
+	if dto := kv["dto"]; dto != "" && dto != "0" {
+		g["dial_options"] = map[string]any{"timeout": dto + "ms"}
+	}
 	if t := gunTimeout(kv); t != "" {
 		g["timeout"] = t
 	}
@@ -225,9 +275,7 @@ func gunSection(kind string, e *env, kv map[string]string) map[string]any {
 		g["shared-client"] = map[string]any{"enabled": true, "client-number": sc}
 	}
 	if e.refl != nil {
-		_, port, _ := strings.Cut(e.refl.Addr, ":")
-		p, _ := strconv.Atoi(port)
-		g["reflect_port"] = p
+		g["reflect_port"] = portOf(e.refl.Addr)
 	}
 	if e.rmd {
 		g["reflect_metadata"] = reflectMD
@@ -385,6 +433,9 @@ func tmplExpr(letter byte, callName string) string {
 		return ".request.auth.postprocessor.userId"
 	case 'G':
 		return ".source.global.g"
+	case 'M':
+		// a NUMBER of the variables source (written as a YAML number, not as a text)
+		return ".source.global.n"
 	case 'R':
 		return "randInt 7 8"
 	case 'S':
@@ -493,10 +544,11 @@ func tmplGo(s, callName string) string {
 }
 
 var (
-	spelledRe = regexp.MustCompile(`\{[UAIGRSXKLN][0-9]\}`)
+	spelledRe = regexp.MustCompile(`\{[UAIGRSXKLNM][0-9]\}`)
 	badTmplRe = regexp.MustCompile(`\{[EP][0-9]?\}`)
 	funcRe    = regexp.MustCompile(`\{[RSXKLN][0-9]?\}`)
 	assertRe  = regexp.MustCompile(`\|a[0-9]+(;|$)`)
+	preFormRe = regexp.MustCompile(`\|(uL|uu|um?[0-9]+)(\||;|$)`)
 )
 
 var uuidRe = regexp.MustCompile(`[0-9a-f]{8}-[0-9a-f]{4}-4[0-9a-f]{3}-[89ab][0-9a-f]{3}-[0-9a-f]{12}`)
@@ -505,16 +557,41 @@ var uuidRe = regexp.MustCompile(`[0-9a-f]{8}-[0-9a-f]{4}-4[0-9a-f]{3}-[89ab][0-9
 func canonUUID(s string) string { return uuidRe.ReplaceAllString(s, "UUID") }
 
 func scenAmmoFile(kv map[string]string) string {
-	usersCSV := "login,pass\n"
+	// csv=<k>: the way the users file and its source are written: 0 a header line that is ignored, the fields named in the
+	// configuration; 1 the fields named by the header line only; 2 no header line at all (nothing is ignored); 3 like 0
+	// with ';' as the delimiter. The users are the same in every form.
+	sep, header, fields, ignoreFirst := ",", true, true, true
+	switch kv["csv"] {
+	case "1":
+		fields = false
+	case "2":
+		header, ignoreFirst = false, false
+	case "3":
+		sep = ";"
+	}
+	usersCSV := ""
+	if header {
+		usersCSV = "login" + sep + "pass\n"
+	}
 	for _, u := range splitNE(kv["users"], ",") {
-		usersCSV += c20lib.Dec(u) + "," + c20lib.Dec(u) + "\n"
+		usersCSV += c20lib.Dec(u) + sep + c20lib.Dec(u) + "\n"
 	}
 	usersFile := c20lib.WriteFile(".csv", usersCSV)
+	usersSrc := map[string]any{"name": "users", "type": "file/csv", "file": usersFile, "ignore_first_line": ignoreFirst, "delimiter": sep}
+	if fields {
+		usersSrc["fields"] = []string{"login", "pass"}
+	}
+	globals := map[string]any{"g": c20lib.Dec(kv["g"])}
+	// gn=<integer>: a numeric variable (a YAML number) next to the textual one
+	if gn := kv["gn"]; gn != "" {
+		if n, err := strconv.ParseInt(gn, 10, 64); err == nil {
+			globals["n"] = n
+		}
+	}
 	cfg := map[string]any{
 		"variable_sources": []any{
-			map[string]any{"name": "users", "type": "file/csv", "file": usersFile, "fields": []string{"login", "pass"},
-				"ignore_first_line": true, "delimiter": ","},
-			map[string]any{"name": "global", "type": "variables", "variables": map[string]any{"g": c20lib.Dec(kv["g"])}},
+			usersSrc,
+			map[string]any{"name": "global", "type": "variables", "variables": globals},
 		},
 	}
 	var calls []any
@@ -537,8 +614,8 @@ func scenAmmoFile(kv map[string]string) string {
 		if len(md) > 0 {
 			call["metadata"] = md
 		}
-		if p[4] == "u" {
-			call["preprocessors"] = []any{map[string]any{"type": "prepare", "mapping": map[string]string{"u": "source.users[next]"}}}
+		if pp := preprocessorsOf(p[4]); pp != nil {
+			call["preprocessors"] = pp
 		}
 		// a<code>: an assert/response postprocessor demanding that status code (a failed assertion ends the shot)
 		if code, isAssert := strings.CutPrefix(p[5], "a"); isAssert && code != "" {
@@ -581,8 +658,38 @@ func scenAmmoFile(kv map[string]string) string {
 	return c20lib.WriteFile(".yaml", string(b))
 }
 
+// preprocessorsOf: the preprocessor field of a call: u = u: source.users[next]; uL = …[last]; u<d> = …[<d>] (an index beyond
+// the list wraps around); um<d> = …[-<d>] (counted from the end, wrapping); uu = TWO preprocessors that both define u, the
+// first by [next], the second by [0] (the first definition wins); anything else = none.
+func preprocessorsOf(f string) []any {
+	prep := func(path string) any {
+		return map[string]any{"type": "prepare", "mapping": map[string]string{"u": path}}
+	}
+	switch {
+	case f == "u":
+		return []any{prep("source.users[next]")}
+	case f == "uL":
+		return []any{prep("source.users[last]")}
+	case f == "uu":
+		return []any{prep("source.users[next]"), prep("source.users[0]")}
+	case strings.HasPrefix(f, "um") && len(f) > 2 && strings.Trim(f[2:], "0123456789") == "":
+		return []any{prep("source.users[-" + f[2:] + "]")}
+	case strings.HasPrefix(f, "u") && len(f) > 1 && strings.Trim(f[1:], "0123456789") == "":
+		return []any{prep("source.users[" + f[1:] + "]")}
+	}
+	return nil
+}
+
+// scenPool: spas / slim = the grpc/scenario provider's passes / limit options (absent = unlimited)
 func scenPool(kv map[string]string, e *env, rps map[string]any, n int) string {
-	return poolYAML(gunSection("grpc/scenario", e, kv), map[string]any{"type": "grpc/scenario", "file": scenAmmoFile(kv)}, rps, n)
+	prov := map[string]any{"type": "grpc/scenario", "file": scenAmmoFile(kv)}
+	if v, _ := strconv.Atoi(kv["spas"]); v > 0 {
+		prov["passes"] = v
+	}
+	if v, _ := strconv.Atoi(kv["slim"]); v > 0 {
+		prov["limit"] = v
+	}
+	return poolYAML(gunSection("grpc/scenario", e, kv), prov, rps, n)
 }
 
 func runScenSched(kv map[string]string) string {
@@ -733,6 +840,15 @@ func class(input, obs string) string {
 	if kv["rmd"] == "1" {
 		c += "/reflect-md"
 	}
+	if kv["tf"] != "" {
+		c += "/target-form"
+	}
+	if kv["ghost"] == "1" {
+		c += "/unresolvable-service"
+	}
+	if kv["dto"] != "" {
+		c += "/dial-timeout"
+	}
 	switch kv["mode"] {
 	case "json":
 		if kv["run"] == "sched" {
@@ -769,6 +885,9 @@ func class(input, obs string) string {
 		if kv["sce"] == "1" {
 			c += "/pool-size-boundary"
 		}
+		if kv["pas"] == "d" || kv["src"] == "1" {
+			c += "/provider-defaults"
+		}
 	case "scen":
 		c += "/" + kv["run"] + "/n" + kv["n"]
 		if strings.Contains(kv["scns"], "sleep") {
@@ -797,6 +916,18 @@ func class(input, obs string) string {
 		}
 		if strings.Contains(kv["calls"], "x-shadow") || strings.Contains(kv["calls"], "x-later") {
 			c += "/name-defined-twice"
+		}
+		if preFormRe.MatchString(kv["calls"]) {
+			c += "/index-forms"
+		}
+		if kv["csv"] != "" && kv["csv"] != "0" {
+			c += "/csv-form"
+		}
+		if kv["gn"] != "" {
+			c += "/numeric-variable"
+		}
+		if kv["spas"] != "" || kv["slim"] != "" {
+			c += "/provider-passes-limit"
 		}
 	}
 	return c
